@@ -387,5 +387,8 @@ Agrees(obs, exp) ==
     CASE exp.t = "open"   -> TRUE
       [] exp.t = "anyerr" -> obs.t = "err"
       [] exp.t = "noexc"  -> obs.t \in {"num", "txt", "bool", "blank", "date", "err", "float", "arr"}
+      \* a date and a number denote the same value when the serial (with its time fraction) is that number
+      [] exp.t = "date" /\ obs.t = "num" -> SameVal(ToNum(exp), obs)
+      [] exp.t = "num" /\ obs.t = "date" -> SameVal(exp, ToNum(obs))
       [] OTHER            -> SameVal(obs, exp)
 =============================================================================
